@@ -636,6 +636,84 @@ func wellFormed(c *Ctx, w *Worker, api *probe.API, o probe.Obj, steps func() []S
 	w.Count("wellformed-sweeps")
 }
 
+// targetAssigns are the objects whose NEIGHBOURHOOD in Set-space is worth a visit although no sampling reaches them:
+// every base vector with all Modified metrics written as explicit copies (v3.x all, v4 a seeded eighth), the
+// packed-code corners with everything 1-2 metrics away, and the literal-guided objects.
+func targetAssigns(c *Ctx, api *probe.API) []spec.Assign {
+	v := api.Ver
+	out := append([]spec.Assign{}, cornerAssigns(api)...)
+	if v.ID != spec.V20 {
+		total, nb := 1, 0
+		for _, me := range v.Metrics {
+			if me.Mandatory {
+				nb++
+				total *= len(me.Values)
+			}
+		}
+		stride := 1
+		if v.ID == spec.V40 {
+			stride = c.Pick(8, 1)
+		}
+		for i := c.Rand("targets", v.Name).Intn(stride); i < total; i += stride {
+			a := v.ZeroAssign()
+			k := i
+			for m := 0; m < nb; m++ {
+				n := len(v.Metrics[m].Values)
+				a[m] = uint8(k % n)
+				k /= n
+			}
+			explicitCopy(v, a)
+			out = append(out, a)
+		}
+	}
+	return out
+}
+
+// setTowards builds target from the zero object by one Set per metric in a seeded order (all metrics, or only those
+// that differ from the zero object), reading EVERY metric back after EVERY Set against the shadow assignment.
+func setTowards(c *Ctx, w *Worker, api *probe.API, target spec.Assign) {
+	v := api.Ver
+	o := api.New()
+	shadow := v.ZeroAssign()
+	// the zero object of a version reads back as its first values / not defined
+	if a0, fail := readAll(o, v); fail == "" {
+		shadow = a0
+	}
+	order := make([]int, v.N())
+	for i := range order {
+		order[i] = i
+	}
+	for i := len(order) - 1; i > 0; i-- {
+		j := w.R.Intn(i + 1)
+		order[i], order[j] = order[j], order[i]
+	}
+	var steps []Step
+	steps = append(steps, Step{Op: "new"})
+	for _, m := range order {
+		me := v.Metrics[m]
+		val := me.Values[target[m]]
+		err, p := probe.SafeSet(o, me.Abv, val)
+		steps = append(steps, Step{Op: "set", S: me.Abv, Val: val})
+		w.Eval()
+		if err != nil || p != nil {
+			c.Violate(Violation{Kind: "set-accept-mismatch", Version: v.Name, Steps: append([]Step{}, steps...), Expected: "legal Set succeeds on the way to " + v.Canonical(target), Observed: fmt.Sprint(err, p)})
+			return
+		}
+		shadow[m] = target[m]
+		got, fail := readAll(o, v)
+		w.EvalN(int64(v.N()))
+		if fail != "" {
+			c.Violate(Violation{Kind: "illegal-get-after-set", Version: v.Name, Steps: append([]Step{}, steps...), Expected: "legal values", Observed: fail})
+			return
+		}
+		if d := diffAssign(v, shadow, got); d != "" {
+			c.Violate(Violation{Kind: "set-changed-other-metric", Version: v.Name, Steps: append([]Step{}, steps...), Expected: "only " + me.Abv + " changes (on the way to " + v.Canonical(target) + ")", Observed: d})
+			return
+		}
+	}
+	w.Count("targeted-set-walks")
+}
+
 // ---------------------------------------------------------------- C07
 
 // history runs a random Set history against a shadow map, checking after every step.
@@ -758,6 +836,11 @@ func history(c *Ctx, w *Worker, api *probe.API, n int, habv, hval []string, swee
 
 func CheckC07(c *Ctx) {
 	hval := hostileValues()
+	for _, api := range probe.APIs {
+		api := api
+		tl := targetAssigns(c, api)
+		c.Parallel("targeted-set-walks-"+api.Ver.Name, len(tl), 32, func(w *Worker, i int) { setTowards(c, w, api, tl[i]) })
+	}
 	// (a)+(b) exhaustive quadruples (m, v, m', v') on three backgrounds; legal Set and failing Sets
 	quads := int64(0)
 	for _, api := range probe.APIs {
@@ -1007,7 +1090,7 @@ func CheckC07(c *Ctx) {
 	c.Extra["quadruples_complete"] = true
 	c.Extra["quadruples"] = quads
 	c.SetReport(Report{
-		Rule:        "(a) COMPLETE set of quadruples (metric m, value v, other metric m', value v') on three backgrounds (all-first-code, all-last-code, random): object built through the API, three failing Sets (illegal value, unknown abbreviation, lower-case value) must leave it bit-identical, then Set(m,v) must change m and nothing else (all Gets vs shadow map) and the result must be == to the freshly parsed canonical vector; (b) random histories of 1-200 Sets (70% legal / 20% illegal value / 10% unknown abbreviation) checked against the shadow map after EVERY step, final object compared with == against three independently built objects; (c) a Gray-code walk over every configuration of the optional metrics (complete in thorough: 192,000 / 221,184,000 x2 / 1,179,648,000; quick: a seeded fraction of the chunks), one Set per step with read-back against the shadow map. evaluations = API calls; distinct = quadruples + distinct (final map, length) histories",
+		Rule:        "targeted Set walks: every base vector with all Modified metrics as explicit copies (v3.x all, v4 a seeded eighth), the packed-code corners with everything 1-2 metrics away and the literal-guided objects are each built from the zero object by one Set per metric in a seeded order, EVERY metric read back after EVERY Set; (a) COMPLETE set of quadruples (metric m, value v, other metric m', value v') on three backgrounds (all-first-code, all-last-code, random): object built through the API, three failing Sets (illegal value, unknown abbreviation, lower-case value) must leave it bit-identical, then Set(m,v) must change m and nothing else (all Gets vs shadow map) and the result must be == to the freshly parsed canonical vector; (b) random histories of 1-200 Sets (70% legal / 20% illegal value / 10% unknown abbreviation) checked against the shadow map after EVERY step, final object compared with == against three independently built objects; (c) a Gray-code walk over every configuration of the optional metrics (complete in thorough: 192,000 / 221,184,000 x2 / 1,179,648,000; quick: a seeded fraction of the chunks), one Set per step with read-back against the shadow map. evaluations = API calls; distinct = quadruples + distinct (final map, length) histories",
 		Exhaustive:  false,
 		DistinctN:   quads + c.Distinct.Count(),
 		Assumptions: []string{"the quadruple matrix is complete; histories are sampled"},
@@ -1018,6 +1101,11 @@ func CheckC07(c *Ctx) {
 // ---------------------------------------------------------------- C09
 
 func CheckC09(c *Ctx) {
+	for _, api := range probe.APIs {
+		api := api
+		tl := targetAssigns(c, api)
+		c.Parallel("targeted-set-walks-"+api.Ver.Name, len(tl), 32, func(w *Worker, i int) { setTowards(c, w, api, tl[i]) })
+	}
 	hval := hostileValues()
 	var matrix int64
 	for _, api := range probe.APIs {
@@ -1157,7 +1245,7 @@ func CheckC09(c *Ctx) {
 	c.Extra["values_tried"] = len(hval)
 	c.Extra["matrix_cells"] = matrix
 	c.SetReport(Report{
-		Rule:        "COMPLETE cross product (hostile abbreviation list incl. every abbreviation of all four versions, case variants, prefixes/suffixes, padded, doubled, empty) x (hostile value list built the same way from every value of every version) offered to Get/Set of each version on the zero value and two random objects; accept iff in the version's vocabulary; EVERY string of at most 3 (thorough: 4) ASCII letters as abbreviation; then zero values and random hostile Set histories (length 1-60) each followed by the well-formedness sweep (all Gets legal, Vector() accepted by the recogniser and agreeing with Get, every scoring method and Nomenclature return). distinct = matrix cells + distinct histories",
+		Rule:        "targeted Set walks: every base vector with all Modified metrics as explicit copies (v3.x all, v4 a seeded eighth), the packed-code corners with everything 1-2 metrics away and the literal-guided objects are each built from the zero object by one Set per metric in a seeded order, EVERY metric read back after EVERY Set; COMPLETE cross product (hostile abbreviation list incl. every abbreviation of all four versions, case variants, prefixes/suffixes, padded, doubled, empty) x (hostile value list built the same way from every value of every version) offered to Get/Set of each version on the zero value and two random objects; accept iff in the version's vocabulary; EVERY string of at most 3 (thorough: 4) ASCII letters as abbreviation; then zero values and random hostile Set histories (length 1-60) each followed by the well-formedness sweep (all Gets legal, Vector() accepted by the recogniser and agreeing with Get, every scoring method and Nomenclature return). distinct = matrix cells + distinct histories",
 		DistinctN:   matrix + c.Distinct.Count(),
 		Assumptions: []string{"vocabulary tables in harness/spec/vocab.go are the specifications' metric/value sets"},
 	})
